@@ -61,6 +61,11 @@ class RuleView(object):
 def run(tier):
     rep = Report('C07', tier)
     prog = load_core('systemd')
+    # premise of everything decided per interface record: the lookup hands out the record keyed by the interface (hit only after
+    # comparing the context), creates an all-zero one only on a miss, and never stores into or re-links an existing record
+    rep.rule('R07.k', 'the interface-record lookup: hit only on an equal context, fresh record all-zero and keyed by the context, existing records untouched', floor=3)
+    from .state_record import check_state_for_iface
+    check_state_for_iface(rep, prog, 'R07.k')
     rep.rule('R07.a', 'an observation is linked only when the real destination equals the own address; otherwise nothing is stored or allocated', floor=3)
     rep.rule('R07.b', 'de-duplication key is exactly (Ethernet source, real source)', floor=1)
     rep.rule('R07.c', 'field mapping frame -> node -> wire descriptor is type, real source, Ethernet source, Ethernet destination (identity, 20 bytes)', floor=20)
